@@ -140,6 +140,16 @@ CHECKS = {
             "the reported partner of an a-event with several qualifying partners is unspecified; WHERE is read per side (projection on the "
             "leaves addressed to that side), conditions on fields a type lacks are unspecified; repeated pairs in compacted tiers are a known finding",
             "DESIGN.md §4 C15"),
+    "C16": ("exploration",
+            "runtime monitoring: reference oracle (python datetime / zoneinfo) + relational oracle (query vs read-back values, spelling vs spelling) over generated time histories, one process per time-zone configuration",
+            "Instants (recent, pre-1970, beyond 2106, fractional, on unit and DST boundaries, at the digit-count boundaries of the epoch-unit rule) "
+            "are stored in every accepted spelling and read back in memory / L0 / compacted layouts; SINCE..USING and WHERE literals in every "
+            "spelling x 6 operators must select exactly the events whose read-back value satisfies the comparison; PER HOUR..YEAR bucket keys "
+            "must be the calendar unit start under UTC, US/Eastern, Asia/Kolkata, Pacific/Chatham, America/Havana x week start Mon/Sun.",
+            "an integer spelling is asserted only where the documented digit rule identifies its unit; DST zones are not asserted beyond 2036 "
+            "(library extrapolation); segment histories keep instants within ~2 years because the on-disk calendar enumerates every hour of a "
+            "zone's range (a magnitude mix is only driven in memory)",
+            "DESIGN.md §4 C16"),
 }
 
 PENDING_REASON = "check not built yet in this session (see DESIGN.md §10 for the order); no claim is made"
